@@ -203,9 +203,21 @@ impl From<&IPFix> for NetflowCommon {
 
         for flowset in &value.flowsets {
             if let IPFixFlowSetBody::Data(data) = &flowset.body {
-                for data_field in &data.fields {
-                    let value_map: BTreeMap<IPFixField, FieldValue> =
-                        data_field.values().cloned().collect();
+                // The parser emits one map per decoded field; the fields of a record carry
+                // the indices 0, 1, 2, ...: a record ends where the index stops increasing.
+                let mut records: Vec<BTreeMap<IPFixField, FieldValue>> = vec![];
+                let mut last_index: Option<usize> = None;
+                for (index, (field, value)) in data.fields.iter().flatten() {
+                    if last_index.is_none_or(|last| *index <= last) {
+                        records.push(BTreeMap::new());
+                    }
+                    if let Some(record) = records.last_mut() {
+                        record.insert(*field, value.clone());
+                    }
+                    last_index = Some(*index);
+                }
+
+                for value_map in records {
                     flowsets.push(NetflowCommonFlowSet {
                         src_addr: value_map
                             .get(&IPFixField::SourceIpv4address)
